@@ -6,8 +6,9 @@ From Coq Require Import List NArith ZArith Bool.
 From I18n Require Import Lib.Outcome Model.Ling.
 Import ListNotations.
 
-Definition str := list N.
-Definition tup4 : Type := str * option str * option str * option str.     (* Language._get_tuple() / match.groups() *)
+(* (notations, not definitions: the same types as in Model/Ling.v, syntactically) *)
+Notation str := (list N) (only parsing).
+Notation tup4 := (list N * option (list N) * option (list N) * option (list N))%type (only parsing).     (* Language._get_tuple() / match.groups() *)
 
 (* ---------- exceptions ---------- *)
 Inductive pyx :=
